@@ -12,12 +12,13 @@
 (***************************************************************************)
 EXTENDS Integers, Sequences, FiniteSets, TLC
 CONSTANTS MaxS, MaxF, MaxLabel,
+          MinLabel, \* smallest stored label: 1 in a well-formed file; 0 models a file written with 0-based labels (parsed: -1)
           Ids       \* sample identifiers (int32): include values above 2^24, which single precision cannot hold
 FVals == {<<0, 1>>, <<-5, 4>>, <<3, 2>>}      \* 0, -1.25, 1.5 : exactly representable in float32
 VARIABLES ns, nf, recs
 vars == <<ns, nf, recs>>
 Init == /\ ns \in 1..MaxS /\ nf \in 1..MaxF
-        /\ recs \in [1..ns -> [id : Ids, label : 1..MaxLabel, feat : [1..nf -> FVals]]]
+        /\ recs \in [1..ns -> [id : Ids, label : MinLabel..MaxLabel, feat : [1..nf -> FVals]]]
         /\ \A a, c \in 1..ns : a # c => recs[a].id # recs[c].id
 Next == UNCHANGED vars
 Spec == Init /\ [][Next]_vars
@@ -29,5 +30,7 @@ MaxShifted == CHOOSE m \in LabelSet : \A x \in LabelSet : x <= m
 Accept == LabelSet = 0..MaxShifted                       \* sequential labels 0, 1, ..., max
 Export == PrintT(<<"DS", nf, [a \in 1..ns |-> <<recs[a].id, recs[a].label, [f \in 1..nf |-> recs[a].feat[f]]>>],
                    [a \in 1..ns |-> Shifted[a]], Accept, HeaderLayout, RecordPrefix>>)
-ShiftInv == \A a \in 1..ns : Shifted[a] >= 0
+ShiftInv == \A a \in 1..ns : Shifted[a] >= MinLabel - 1
+\* only label sets 0, 1, ..., max are accepted: in particular nothing negative
+AcceptedLabelsStartAtZero == Accept => (\A a \in 1..ns : Shifted[a] >= 0) /\ (\E a \in 1..ns : Shifted[a] = 0)
 =============================================================================
